@@ -117,6 +117,19 @@ fn hook_decode(payload: &[u8], w: u32, h: u32) -> Dec {
     }
 }
 
+/// the hook through a reader that exposes `k` bytes per fill_buf call (BufReader of capacity k over the payload)
+fn hook_decode_chunked(payload: &[u8], w: u32, h: u32, k: usize) -> Dec {
+    let p = payload.to_vec();
+    match catch(move || {
+        let r = std::io::BufReader::with_capacity(k, std::io::Cursor::new(p));
+        image_webp::verif::vp8l_decode_with(r, w as u16, h as u16, false)
+    }) {
+        Ok(Ok(b)) => Dec::Ok(w, h, true, b),
+        Ok(Err(e)) => Dec::Err(format!("{e}")),
+        Err(p) => Dec::Panic(p),
+    }
+}
+
 /// compare a crate result with the reference RGBA; None = agrees
 fn disagree(d: &Dec, w: u32, h: u32, reference: &[u8]) -> Option<String> {
     match d {
@@ -202,6 +215,10 @@ pub fn judge(payload: &[u8], full: bool) -> Verdict {
             }
         };
         check("hook", &hook);
+        // a valid stream must decode whatever the reader's chunking (1, 3 and a payload-dependent number of bytes per call)
+        for k in [1usize, 3, 5 + payload.len() % 11] {
+            check(&format!("hook_chunked{k}"), &hook_decode_chunked(payload, w, h, k));
+        }
         check("simple", &api_decode(wrap_simple(payload)));
         if full {
             for alpha in [true, false] {
